@@ -1,6 +1,5 @@
 import Gaftools.Props.C12
 import Gaftools.Props.C12b
-import Gaftools.Props.TieA2
 #print axioms Gaftools.C12.cigarValid_iff
 #print axioms Gaftools.C12.aligns_lengths
 #print axioms Gaftools.C12.aligns_wfOps
@@ -9,7 +8,6 @@ import Gaftools.Props.TieA2
 #print axioms Gaftools.C12.untouched
 #print axioms Gaftools.C12.passthrough
 #print axioms Gaftools.C12.realign_record
-#print axioms Gaftools.TieA.passThrough_gen
 #print axioms Gaftools.C12.optCost_le
 #print axioms Gaftools.C12.optAlign_aligns
 #print axioms Gaftools.C12.optAlign_cost
